@@ -213,10 +213,15 @@ def check_scope(ctx, case) -> None:
     if cand[1] == cand[0]:
         cand = cand[:1]
     e = dirty_engine(ctx, spec, case.get("pre"))
+    early = fl.FldExporter(separator=sep, headers=headers, input_values=want_in, output_values=want_out)
     with fl.settings.context(decimals=d):
-        text = fl.FldExporter(separator=sep, headers=headers, input_values=want_in,
-                              output_values=want_out).to_string_from_scope(
-            e, v, getattr(fl.FldExporter.ScopeOfValues, scope))
+        # "printed with the configured decimals": the setting in force when the dataset is written, whether the
+        # exporter object was created before or inside the context
+        exporter = early if case.get("exporter_first") else fl.FldExporter(
+            separator=sep, headers=headers, input_values=want_in, output_values=want_out)
+        text = exporter.to_string_from_scope(e, v, getattr(fl.FldExporter.ScopeOfValues, scope))
+    if case.get("exporter_first"):
+        ctx.cls("exporter_created_before_decimals_context")
     check_table(ctx, case, text, d, sep, headers, want_in, want_out, spec, cand, exact_rows, "scope")
     ctx.cls("scope:" + scope)
     ctx.cls(f"inputs:{n}")
@@ -241,9 +246,12 @@ def check_reader(ctx, case) -> None:
     shown = [[min(max(x, iv["min"]), iv["max"]) if iv.get("lock_range") and not math.isnan(x) else x
               for x, iv in zip(r, spec["inputs"])] for r in rows]
     e = dirty_engine(ctx, spec, case.get("pre"))
+    early = fl.FldExporter(separator=sep, headers=case["headers"], input_values=case["inputs"],
+                           output_values=case["outputs"])
     with fl.settings.context(decimals=d):
-        text = fl.FldExporter(separator=sep, headers=case["headers"], input_values=case["inputs"],
-                              output_values=case["outputs"]).to_string_from_reader(e, io.StringIO(content), skip)
+        exporter = early if case.get("exporter_first") else fl.FldExporter(
+            separator=sep, headers=case["headers"], input_values=case["inputs"], output_values=case["outputs"])
+        text = exporter.to_string_from_reader(e, io.StringIO(content), skip)
     check_table(ctx, case, text, d, sep, case["headers"], case["inputs"], case["outputs"], spec, [rows], shown,
                 "reader")
     kinds = {ln["kind"] for ln in lines}
@@ -292,9 +300,36 @@ def scope_cases(draw, cap):
         v = draw(st.one_of(st.integers(1, min(kmax, 2000)), st.integers(1, min(kmax, 6))))
     want_in, want_out = draw(st.sampled_from([(True, True)] * 4 + [(True, False), (False, True)]))
     pre = [draw(gen.input_row(spec)) for _ in range(draw(st.sampled_from([0, 0, 1, 2])))]
-    return {"spec": spec, "pre": pre, "scope": scope, "v": v, "d": draw(st.sampled_from([0, 1, 2, 3, 3, 3, 4, 6, 9])),
+    return {"spec": spec, "pre": pre, "exporter_first": draw(st.booleans()), "scope": scope, "v": v, "d": draw(st.sampled_from([0, 1, 2, 3, 3, 3, 4, 6, 9])),
             "sep": draw(st.sampled_from(SEPS)), "headers": draw(st.sampled_from([True, True, False])),
             "inputs": want_in, "outputs": want_out}
+
+
+@st.composite
+def long_lock_previous_cases(draw, cap):
+    """One input whose terms cover only parts of the range (no rule fires elsewhere: NaN), a lock-previous output, and
+    more than 1024 rows: every row must carry the value held from the previous row, across any internal batching."""
+    k = draw(st.integers(2, 3))
+    cuts = sorted(draw(st.lists(st.integers(1, 63), min_size=2 * k, max_size=2 * k, unique=True)))
+    terms = [{"cls": "Triangle", "p": [cuts[2 * i] / 64, (cuts[2 * i] + cuts[2 * i + 1]) / 128, cuts[2 * i + 1] / 64],
+              "h": 1.0, "name": gen.TERM_NAMES[i]} for i in range(k)]
+    oterms = [{"cls": "Triangle", "p": [i / 4, i / 4 + 0.125, i / 4 + 0.25], "h": 1.0, "name": gen.TERM_NAMES[i]}
+              for i in range(k)]
+    spec = {"name": "E", "description": "", "rg": "dy", "profile": "mamdani",
+            "inputs": [{"name": "A", "description": "", "enabled": True, "min": 0.0, "max": 1.0, "lock_range": False,
+                        "terms": terms}],
+            "outputs": [{"name": "Y", "description": "", "enabled": True, "min": 0.0, "max": 1.0, "lock_range": False,
+                         "lock_previous": True, "default": draw(st.sampled_from([math.nan, 0.5])),
+                         "aggregation": "Maximum", "defuzzifier": {"cls": draw(st.sampled_from(["Centroid", "MeanOfMaximum"])),
+                                                                   "resolution": 10}, "terms": oterms}],
+            "blocks": [{"name": "rb", "description": "", "enabled": True, "conjunction": "Minimum",
+                        "disjunction": "Maximum", "implication": "Minimum", "activation": {"cls": "General"},
+                        "rules": [{"ante": {"var": "A", "hedges": [], "term": gen.TERM_NAMES[i]},
+                                   "cons": [{"var": "Y", "hedges": [], "term": gen.TERM_NAMES[i]}], "weight": None,
+                                   "enabled": True, "tight": False} for i in range(k)]}]}
+    v = draw(st.integers(1025, min(cap, 2000)))
+    return {"spec": spec, "pre": [], "exporter_first": False, "scope": "EachVariable", "v": v, "d": 3, "sep": " ",
+            "headers": True, "inputs": True, "outputs": True}
 
 
 def fmt_float(x):
@@ -336,7 +371,7 @@ def reader_cases(draw):
         lines.append({"kind": "data", "row": row, "text": " ".join(fmt_float(x) for x in row)})
     want_in, want_out = draw(st.sampled_from([(True, True)] * 4 + [(True, False), (False, True)]))
     pre = [draw(gen.input_row(spec)) for _ in range(draw(st.sampled_from([0, 0, 1, 2])))]
-    return {"spec": spec, "pre": pre, "lines": lines, "skip": skip, "d": draw(st.sampled_from([0, 1, 3, 3, 6, 9])),
+    return {"spec": spec, "pre": pre, "exporter_first": draw(st.booleans()), "lines": lines, "skip": skip, "d": draw(st.sampled_from([0, 1, 3, 3, 6, 9])),
             "sep": draw(st.sampled_from(SEPS)), "headers": draw(st.sampled_from([True, True, False])),
             "inputs": want_in, "outputs": want_out, "final_newline": draw(st.booleans())}
 
@@ -344,6 +379,8 @@ def reader_cases(draw):
 def shard(ctx, shard, nshards, ex, cap):
     ctx.hyp("scope", scope_cases(cap), check_scope, ex)
     ctx.hyp("reader", reader_cases(), check_reader, max(10, ex // 2))
+    if cap > 1024:
+        ctx.hyp("scope", long_lock_previous_cases(cap), check_scope, max(3, ex // 50))
 
 
 def run(ctx) -> None:
